@@ -196,8 +196,10 @@ class KeplerNum(NumericalPropagator):
         dates = kwargs.get("dates")
 
         if dates is not None:
-            start = dates.start
-            stop = dates.stop
+            # dates can be any iterable of dates (Date.range, list or generator)
+            dates = list(dates)
+            start = dates[0]
+            stop = dates[-1]
             step = None
         else:
             start = kwargs.get("start", self.orbit.date)
